@@ -195,6 +195,112 @@ func runMutants(id, repo, root string) *sensitivity {
 	return s
 }
 
+// refactorKinds are the behaviour-preserving transformations of refactor.go.
+var refactorKinds = []string{"rename-locals", "shift-lines", "swap-operands", "invert-if", "hoist-init", "wrap-else"}
+
+// runRefactorings is the converse self-test: each behaviour-preserving transformation is applied to a
+// scratch copy of the current tree and the quick rules are run on it; any report that the
+// untransformed tree does not produce is a false alarm of the checker. Like runMutants this is a
+// statement about the checker and never changes the exit code.
+func runRefactorings(id, repo, root string) map[string]any {
+	self, err := os.Executable()
+	if err != nil {
+		return nil
+	}
+	reportsOf := func(dir string) (map[string]string, string) {
+		cmd := exec.Command(self, "-property", id, "-tier", "quick", "-repo", dir, "-root", root, "-no-evidence")
+		cmd.Env = os.Environ()
+		out, _ := cmd.CombinedOutput()
+		m := map[string]string{}
+		for _, l := range strings.Split(string(out), "\n") {
+			if strings.HasPrefix(l, "MUTANT-REPORT ") {
+				f := strings.Fields(strings.TrimPrefix(l, "MUTANT-REPORT "))
+				if len(f) >= 3 {
+					m[f[1]+" "+mutantKey(l)] = strings.TrimPrefix(l, "MUTANT-REPORT ")
+				}
+			}
+		}
+		return m, string(out)
+	}
+	baseline, _ := reportsOf(repo)
+	tmp := os.Getenv("TMPDIR")
+	if tmp == "" {
+		tmp = "/tmp"
+	}
+	type res struct {
+		kind   string
+		status string
+		edits  string
+		alarms []string
+	}
+	out := make([]res, len(refactorKinds))
+	var wg sync.WaitGroup
+	for i, kind := range refactorKinds {
+		wg.Add(1)
+		go func(i int, kind string) {
+			defer wg.Done()
+			r := res{kind: kind}
+			defer func() { out[i] = r }()
+			dir, err := os.MkdirTemp(tmp, "mcpcheck-ref-")
+			if err != nil {
+				r.status = "skipped: " + err.Error()
+				return
+			}
+			defer os.RemoveAll(dir)
+			if err := copyTree(repo, dir); err != nil {
+				r.status = "skipped: " + err.Error()
+				return
+			}
+			cmd := exec.Command(self, "-refactor", kind, "-repo", dir)
+			cmd.Env = os.Environ()
+			o, err := cmd.CombinedOutput()
+			if err != nil {
+				r.status = "skipped: " + firstLine(string(o))
+				return
+			}
+			r.edits = strings.TrimSpace(firstLine(string(o)))
+			reps, raw := reportsOf(dir)
+			if strings.Contains(raw, "load failure") {
+				r.status = "skipped: transformed tree does not type-check"
+				return
+			}
+			for k, l := range reps {
+				if _, ok := baseline[k]; !ok {
+					r.alarms = append(r.alarms, l)
+				}
+			}
+			sort.Strings(r.alarms)
+			if len(r.alarms) == 0 {
+				r.status = "silent"
+			} else {
+				r.status = "false-alarm"
+			}
+		}(i, kind)
+	}
+	wg.Wait()
+	var detail []map[string]any
+	silent := 0
+	for _, r := range out {
+		d := map[string]any{"transformation": r.kind, "status": r.status, "applied": r.edits}
+		if len(r.alarms) > 0 {
+			if len(r.alarms) > 4 {
+				r.alarms = r.alarms[:4]
+			}
+			d["false_alarms"] = r.alarms
+		}
+		if r.status == "silent" {
+			silent++
+		}
+		detail = append(detail, d)
+	}
+	return map[string]any{
+		"what":            "behaviour-preserving transformations of the whole SDK source applied to a scratch copy; the quick rules must stay silent on each",
+		"transformations": len(refactorKinds),
+		"silent":          silent,
+		"detail":          detail,
+	}
+}
+
 func firstLine(s string) string {
 	if i := strings.IndexByte(s, '\n'); i >= 0 {
 		return s[:i]
